@@ -120,7 +120,7 @@ fn main() {
     let prop = Property {
         id: "C18",
         level: "exploration",
-        rule: "(isolation) 2-4 sessions (distinct TSIs on one endpoint, equal TSIs on distinct endpoints, with and without source address, endpoints differing only by source or port): ALL interleavings of their packet streams when the total is small, seeded merges otherwise; the per-session projection of the writer log must equal the log of the session pushed alone and carry the session's own endpoint and TSI; (filter) ALL sequences of {add, remove, add-all, remove-all} over 4 endpoints (2 groups x source/no source) x 2 TSIs up to depth d (3 quick, 4 thorough; 24 operations), each followed by 8 probe packets, against a counter-map reference filter; (listeners) random scripts of data / close-session packets, cleanups after real sleeps, listeners added and removed mid-run, receiver dropped at a random point, judged by a per-(listener, session) automaton with the call in progress recorded for every event, plus an expiry-race stress (hundreds of sessions around a 2 ms timeout, cleanup in a tight loop); a case is one batch, non-trivial when callbacks were observed; distinct = batch parameters",
+        rule: "(isolation) 2-4 sessions (distinct TSIs on one endpoint, equal TSIs on distinct endpoints, with and without source address, endpoints differing only by source or port): ALL interleavings of their packet streams when the total is small, seeded merges otherwise; the per-session projection of the writer log must equal the log of the session pushed alone and carry the session's own endpoint and TSI; (filter) ALL sequences of {add, remove, add-all, remove-all} over 4 endpoints (2 groups x source/no source) x 2 TSIs and {set_tsi_filtering(false), set_tsi_filtering(true)} up to depth d (3 quick, 4 thorough; 24 operations), each followed by 8 probe packets, against a counter-map reference filter; (listeners) random scripts of data / close-session packets, cleanups after real sleeps, listeners added and removed mid-run, receiver dropped at a random point, judged by a per-(listener, session) automaton with the call in progress recorded for every event, plus an expiry-race stress (hundreds of sessions around a 2 ms timeout, cleanup in a tight loop); a case is one batch, non-trivial when callbacks were observed; distinct = batch parameters",
         assumptions: vec![
             "ordering between different sessions' callbacks is free".into(),
             "a session may legitimately expire during any cleanup (loaded machine): only long sleeps (>= 10x the timeout) oblige expiry; the automaton never assumes non-expiry".into(),
